@@ -1,5 +1,8 @@
 """C08 cases: powers and integer logarithms."""
 from .common import *
+from . import widthsweep as _ws
+
+HARNESS_BINS_THOROUGH = ["widths"]
 
 
 def iroot(x, k):
@@ -29,6 +32,15 @@ def pow_case(rng, w, n, signed):
             b = pat(-(1 << k), W)
         e = rng.choice([(1 << 32) // k, (1 << 32) // k + 1, (1 << 31), (1 << 30), (1 << 28) + 1, (1 << 29) + 2, 0xAAAAAAAB, (1 << 32) - 1, W // k, W // k + 1, max(0, W // k - 1)])
         return "pow2base-huge-exp", b, min(e, (1 << 32) - 1)
+    if c == 2:
+        # base = +-(2^t * m), m odd: a^e wraps to exactly 0 / MIN when t*e reaches BITS / BITS-1
+        t = rng.choice([1, 1, 2, 3, 4, 5, 8, rng.randrange(1, max(2, W // 2))])
+        m_ = rng.choice([3, 5, 7, 3, 9, 15, 255, rng.randrange(1, 1 << 10) | 1])
+        b = (m_ << t)
+        e = max(0, rng.choice([(W - 1) // t, W // t, (W - 1) // t + 1, (W - 1) // t - 1, -(-(W - 1) // t)]))
+        if signed and rng.random() < 0.6:
+            b = -b
+        return "2adic-base", pat(b, W), e
     if c <= 5:
         e = rng.choice([2, 3, 4, 5, 7, 8, 15, 16, 31, rng.randrange(2, max(3, W))])
         lim = H if signed else M
@@ -70,7 +82,7 @@ def log_case(rng, w, n, signed):
     return t, a, b
 
 
-def gen(rng, tier):
+def _gen_main(rng, tier):
     reps = 100 if tier == "thorough" else 14
     for cfg in cfgs(tier):
         w, n = wn(cfg)
@@ -113,3 +125,13 @@ def gen(rng, tier):
                     yield f"overflowing_pow {s}8x1 {hx(a)} {e}", "exhaustive8"
                 for b in range(256):
                     yield f"checked_ilog {s}8x1 {hx(a)} {hx(b)}", "exhaustive8"
+
+
+def ROUTE(line):
+    return _ws.route(line, "c08")
+
+
+def gen(rng, tier):
+    yield from _gen_main(rng, tier)
+    if tier == "thorough":
+        yield from _ws.ilog(rng)
